@@ -100,6 +100,31 @@ template<> struct Tr<int>
   static std::string print(int v) {char b[64]; snprintf(b, sizeof b, "%d", v); return b;}
 };
 
+template<> struct Tr<long double>
+{
+  static constexpr int code = 3;
+  static const char * nm() {return "long_double";}
+  static std::string print(long double v) {char b[64]; snprintf(b, sizeof b, "%Lg", v); return b;}
+};
+template<> struct Tr<short>
+{
+  static constexpr int code = 4;
+  static const char * nm() {return "short";}
+  static std::string print(short v) {char b[64]; snprintf(b, sizeof b, "%d", (int)v); return b;}
+};
+template<> struct Tr<long long>
+{
+  static constexpr int code = 5;
+  static const char * nm() {return "long_long";}
+  static std::string print(long long v) {char b[64]; snprintf(b, sizeof b, "%lld", v); return b;}
+};
+template<> struct Tr<unsigned>
+{
+  static constexpr int code = 6;
+  static const char * nm() {return "unsigned";}
+  static std::string print(unsigned v) {char b[64]; snprintf(b, sizeof b, "%u", v); return b;}
+};
+
 // ------------------------------------------------------------------------------------------
 // the real-number verdicts
 // ------------------------------------------------------------------------------------------
@@ -195,6 +220,9 @@ struct CaseDesc
   LD t = 0, e = 0, lo = 0, hi = 0, band = 0;
   bool exact = false;
   bool custom_initial = false;
+  int ctor_mode = 0;
+  uint64_t pre_n = 0;            // unobserved evaluations (cycling over pre_vals, a timeout every 97th) before the steps
+  LD pre_vals[4] = {0, 0, 0, 0};
   std::vector<Step> steps;
   std::string json() const
   {
@@ -207,7 +235,8 @@ struct CaseDesc
     return vh::J().s("checkup", KN[kind]).s("scalar", scalar_name).s("name", name)
            .f(kind == REL ? "low" : "target", t).f(kind == REL ? "high" : "epsilon", e)
            .s("regime", exact ? "exact" : "generic").f("band", band)
-           .boolean("custom_initial_diagnostic", custom_initial).raw("steps", a).str();
+           .boolean("custom_initial_diagnostic", custom_initial).f("constructor_form", ctor_mode)
+           .f("unobserved_prehistory_length", pre_n).arr("prehistory_values", pre_vals, pre_vals + 4).raw("steps", a).str();
   }
 };
 
@@ -326,9 +355,10 @@ template<class T> struct Setup {T t, e; bool exact; int k;};
 template<class T> static Setup<T> gen_fp(vh::Rng & r, vh::Ctx & c)
 {
   constexpr bool isf = std::is_same<T, float>::value;
+  constexpr bool isld = std::is_same<T, long double>::value;
   Setup<T> s; s.k = 0;
   int mode = (int)r.range(0, 9);
-  if (mode <= 5) {
+  if (mode <= 5 || isld) {
     s.exact = true;
     int m = (int)r.range(0, 9), k;
     if (m < 7) {k = (int)r.range(-10, 30); cat("scale_moderate");} else if (m == 7) {
@@ -340,7 +370,7 @@ template<class T> static Setup<T> gen_fp(vh::Rng & r, vh::Ctx & c)
     int64_t a = r.coin(0.15) ? 0 : r.range(-A, A);
     int64_t b = r.coin(0.2) ? 0 : (r.coin(0.3) ? r.range(0, 4) : r.range(0, A));
     s.t = std::ldexp((T)a, -k); s.e = std::ldexp((T)b, -k); s.k = k;
-  } else {
+  } else if constexpr (!isld) {
     s.exact = false;
     int m = (int)r.range(0, 9);
     const double mx = (double)std::numeric_limits<T>::max();
@@ -393,51 +423,75 @@ template<class T> static T gen_value_fp(vh::Rng & r, const Setup<T> & s, int kin
       break;
     case 8: v = s.t; break;
     case 9: v = s.t + s.e * (T)r.uni(-3.0, 3.0); break;
-    case 10: v = r.coin(0.3) ? (T)0 : (T)(r.sign() * (double)MX * r.uni(0.5, 1.0)); break;
+    case 10: v = r.coin(0.3) ? (T)0 : (T)r.sign() * MX * (T)r.uni(0.5, 1.0); break;
     default: v = (T)(r.sign() * r.logu(1e-6, 1e6)); break;
   }
   return clampfin<T>(v);
 }
 
-static Setup<int> gen_int(vh::Rng & r, vh::Ctx & c)
+// Integer check-ups (int, short, long long, unsigned).  The library evaluates target - epsilon and
+// target + epsilon in the promoted type P of the scalar; (target, epsilon) are kept where both are
+// representable in P (for unsigned additionally epsilon <= target): outside, the C++ expression
+// itself overflows (undefined for signed types).  Values cover the whole range of the scalar type.
+typedef __int128 W;
+template<class I> struct IntDom
 {
-  Setup<int> s; s.exact = true; s.k = 0;
+  using P = decltype(I() - I());
+  static W imax() {return std::numeric_limits<I>::max();}
+  static W imin() {return std::numeric_limits<I>::min();}
+  static W half() {return (W)std::numeric_limits<P>::max() / 2;}
+  static W thi() {return std::min<W>(imax(), half());}
+  static W tlo() {return std::is_unsigned<I>::value ? (W)0 : std::max<W>(imin(), -half());}
+  static W ehi() {return std::min<W>(imax(), half());}
+};
+
+template<class I> static Setup<I> gen_int(vh::Rng & r, vh::Ctx &)
+{
+  typedef IntDom<I> D;
+  constexpr bool uns = std::is_unsigned<I>::value;
+  Setup<I> s; s.exact = true; s.k = 0;
   int m = (int)r.range(0, 9);
-  // |t| <= 2^30 and 0 <= e < 2^30, so that t - e and t + e are representable (the library computes
-  // them in int; outside this range the C++ expression itself is undefined)
-  if (m <= 6) {s.t = (int)r.range(-1000, 1000); s.e = r.coin(0.3) ? 0 : (int)r.range(0, 20); cat("scale_moderate");} else if (m <= 8) {
-    s.t = (int)r.range(-(1 << 30), 1 << 30); s.e = (int)r.range(0, (1 << 30) - 1); cat("scale_huge");
-  } else {s.t = r.coin() ? (1 << 30) : -(1 << 30); s.e = (1 << 30) - 1; cat("scale_huge");}
+  W t, e;
+  if (m <= 6) {
+    t = uns ? r.range(0, 2000) : r.range(-1000, 1000); e = r.coin(0.3) ? 0 : r.range(0, 20);
+    cat("scale_moderate");
+  } else if (m <= 8) {
+    t = (W)r.range((int64_t)D::tlo(), (int64_t)D::thi()); e = (W)r.range(0, (int64_t)D::ehi());
+    cat("scale_huge");
+  } else {t = (uns || r.coin()) ? D::thi() : D::tlo(); e = D::ehi(); cat("scale_huge");}
+  if (uns && e > t) {e = t;}
+  s.t = (I)t; s.e = (I)e;
   return s;
 }
 
-static int gen_value_int(vh::Rng & r, const Setup<int> & s, int kind, int & tag)
+template<class I> static I gen_value_int(vh::Rng & r, const Setup<I> & s, int kind, int & tag)
 {
+  typedef IntDom<I> D;
   bool useHi = kind == LT || (kind == EQ && r.coin());
-  int64_t thr = useHi ? (int64_t)s.t + s.e : (int64_t)s.t - s.e;
+  W thr = useHi ? (W)s.t + (W)s.e : (W)s.t - (W)s.e;
   tag = TAG_OTHER;
-  int64_t v;
+  W v;
   switch ((int)r.range(0, 9)) {
     case 0: case 1: v = thr; tag = TAG_ON; break;
     case 2: case 3: v = thr + 1; tag = TAG_ABOVE1; break;
     case 4: case 5: v = thr - 1; tag = TAG_BELOW1; break;
-    case 6: v = thr + r.sign() * r.range(2, 4); tag = TAG_FEWULP; break;
+    case 6: v = thr + (r.coin() ? 1 : -1) * (W)r.range(2, 4); tag = TAG_FEWULP; break;
     case 7: v = s.t; break;
-    case 8: v = r.coin() ? r.range(-2000, 2000) : r.range(INT_MIN, INT_MAX); break;
-    default: v = r.coin(0.3) ? 0 : (r.coin() ? INT_MAX : INT_MIN); break;
+    case 8: v = r.coin() ? (W)r.range(-2000, 2000) : (W)(I)r.next(); break;
+    default: v = r.coin(0.3) ? 0 : (r.coin() ? D::imax() : D::imin()); break;
   }
-  if (v > INT_MAX) {v = INT_MAX;}
-  if (v < INT_MIN) {v = INT_MIN;}
-  return (int)v;
+  if (v > D::imax()) {v = D::imax(); tag = TAG_OTHER;}
+  if (v < D::imin()) {v = D::imin(); tag = TAG_OTHER;}
+  return (I)v;
 }
 
 template<class T> static Setup<T> gen_setup(vh::Rng & r, vh::Ctx & c)
 {
-  if constexpr (std::is_same<T, int>::value) {return gen_int(r, c);} else {return gen_fp<T>(r, c);}
+  if constexpr (std::is_integral<T>::value) {return gen_int<T>(r, c);} else {return gen_fp<T>(r, c);}
 }
 template<class T> static T gen_value(vh::Rng & r, const Setup<T> & s, int kind, int & tag)
 {
-  if constexpr (std::is_same<T, int>::value) {return gen_value_int(r, s, kind, tag);} else {
+  if constexpr (std::is_integral<T>::value) {return gen_value_int<T>(r, s, kind, tag);} else {
     return gen_value_fp<T>(r, s, kind, tag);
   }
 }
@@ -477,7 +531,14 @@ static void neighbour_calls(vh::Rng & r)
       case 4: setReportInfo(scratch, "opt", r.coin() ? std::optional<double>(r.uni() * 1e-5) : std::optional<double>()); break;
       case 5: setReportInfo(scratch, "text", std::string("some text")); setReportInfo(scratch, "int", (int)r.range(-100000, 100000)); break;
       case 6: setReportInfo(scratch, "status", ST[r.range(0, 3)]); (void)toStringInfoValue(Diagnostic(ST[r.range(0, 3)], "m")); break;
-      case 7: {std::ostringstream os; os << scratch; (void)toStringInfoValue(true); (void)toStringInfoValue('c'); break;}
+      case 7: {
+          // printing operators of the diagnostics types themselves (not part of the statement; no oracle):
+          // a report with diagnostics, and a status value outside the four enumerators (prints as "")
+          scratch.diagnostics.emplace_back(ST[r.range(0, 3)], "scratch");
+          std::ostringstream os; os << scratch << static_cast<DiagnosticStatus>((int)r.range(4, 9));
+          (void)toStringInfoValue(true); (void)toStringInfoValue('c');
+          break;
+        }
       case 8: (void)toStringInfoValue((float)r.uni() * 1e9f); (void)toStringInfoValue((long double)r.uni()); break;
       default: setReportInfo(scratch, "huge", r.sign() * r.logu(1e-300, 1e300)); (void)toStringInfoValue((unsigned long long)r.next()); break;
     }
@@ -489,9 +550,9 @@ static void neighbour_calls(vh::Rng & r)
 template<class T> static void after_neighbours_cat(T v)
 {
   if (!g_neighbours_called_in_process) {return;}
-  if constexpr (!std::is_same<T, int>::value) {
+  if constexpr (!std::is_integral<T>::value) {
     char a[64], b[64];
-    snprintf(a, sizeof a, "%g", (double)v); snprintf(b, sizeof b, "%.10g", (double)v);
+    snprintf(a, sizeof a, "%Lg", (long double)v); snprintf(b, sizeof b, "%.10Lg", (long double)v);
     if (std::strcmp(a, b) != 0) {cat("eval_after_neighbour_printing_needing_7plus_digits");}
   }
 }
@@ -506,14 +567,15 @@ enum {FU_NONE = 0, FU_SAME = 1, FU_ZERO_FLIP = 2, FU_ADJACENT = 3, FU_DELTA = 4}
 
 template<class T> static int followup_value(vh::Rng & r, T prev, T & v)
 {
-  if constexpr (std::is_same<T, int>::value) {
+  if constexpr (std::is_integral<T>::value) {
+    const W lo = IntDom<T>::imin(), hi = IntDom<T>::imax();
+    W w;
     switch ((int)r.range(0, 2)) {
       case 0: v = prev; return FU_SAME;
-      case 1: v = prev == INT_MAX ? prev - 1 : (prev == INT_MIN ? prev + 1 : (r.coin() ? prev + 1 : prev - 1)); return FU_ADJACENT;
-      default: {
-          int64_t w = (int64_t)prev + (int64_t)(r.sign() * std::floor(r.logu(2.0, 1e6)));
-          v = (int)std::min<int64_t>(INT_MAX, std::max<int64_t>(INT_MIN, w)); return FU_DELTA;
-        }
+      case 1: w = (W)prev + (r.coin() ? 1 : -1); if (w > hi) {w = hi - 1;} if (w < lo) {w = lo + 1;} v = (T)w; return FU_ADJACENT;
+      default:
+        w = (W)prev + (r.coin() ? 1 : -1) * (W)std::floor(r.logu(2.0, 1e6));
+        v = (T)std::min<W>(hi, std::max<W>(lo, w)); return FU_DELTA;
     }
   } else {
     const T INF = std::numeric_limits<T>::infinity();
@@ -539,73 +601,216 @@ static void followup_cat(int fu)
   }
 }
 
+static bool same_report(const DiagnosticReport & a, const DiagnosticReport & b)
+{
+  if (a.diagnostics.size() != b.diagnostics.size() || a.info != b.info) {return false;}
+  auto ib = b.diagnostics.begin();
+  for (auto & x : a.diagnostics) {
+    if (x.status != ib->status || x.message != ib->message) {return false;}
+    ++ib;
+  }
+  return true;
+}
+static std::string report_json(const DiagnosticReport & rep)
+{
+  std::string got = "[";
+  for (auto & dgn : rep.diagnostics) {got += (got.size() > 1 ? "," : "") + vh::jstr(std::string(sname(dgn.status)) + ":" + dgn.message);}
+  got += "]";
+  std::string inf = "{"; bool f = true;
+  for (auto & kv : rep.info) {inf += (f ? "" : ",") + vh::jstr(kv.first) + ":" + vh::jstr(kv.second); f = false;}
+  inf += "}";
+  return vh::J().raw("diagnostics", got).raw("info", inf).str();
+}
+
+// The temporary (or reference) returned by getReport() is bound to `held` exactly as the signature
+// allows and stays bound while f runs later calls on the same and on sibling objects.
+template<class F> static void with_held(const DiagnosticReport & held, F && f) {f(held);}
+
+// Construction forms: 0 lvalue arguments, 1 temporaries, 2 heap-held arguments that are overwritten
+// and freed right after construction, 3 the same object passed for target and epsilon (t == e).
+enum {CT_LVALUES = 0, CT_TEMPORARIES = 1, CT_FREED_ARGS = 2, CT_ALIAS_T_E = 3};
+#define C18_MK(...) \
+  (kind == EQ ? static_cast<Checkup<T> *>(new CheckupEqualTo<T>(__VA_ARGS__)) : \
+  kind == GT ? static_cast<Checkup<T> *>(new CheckupGreaterThan<T>(__VA_ARGS__)) : \
+  static_cast<Checkup<T> *>(new CheckupLowerThan<T>(__VA_ARGS__)))
+
+template<class T> static std::unique_ptr<Checkup<T>> make_checkup(
+  int kind, int mode, const std::string & name, const T & t, const T & e, bool custom, const Diagnostic & init)
+{
+  Checkup<T> * p = nullptr;
+  switch (mode) {
+    case CT_TEMPORARIES:
+      p = custom ? C18_MK(std::string(name), T(t), T(e), Diagnostic(init.status, std::string(init.message))) :
+        C18_MK(std::string(name), T(t), T(e));
+      cat("construct_from_temporaries");
+      break;
+    case CT_FREED_ARGS: {
+        auto hn = std::make_unique<std::string>(name); auto ht = std::make_unique<T>(t);
+        auto he = std::make_unique<T>(e); auto hd = std::make_unique<Diagnostic>(init);
+        p = custom ? C18_MK(*hn, *ht, *he, *hd) : C18_MK(*hn, *ht, *he);
+        *hn = "overwritten name, long enough to leave the small-string buffer"; *ht = T(); *he = T();
+        hd->message = "overwritten"; hd->status = DiagnosticStatus::WARN;
+        cat("construct_then_free_arguments");
+        break;
+      }
+    case CT_ALIAS_T_E:
+      p = custom ? C18_MK(name, t, t, init) : C18_MK(name, t, t);
+      cat("construct_alias_target_epsilon");
+      break;
+    default:
+      p = custom ? C18_MK(name, t, e, init) : C18_MK(name, t, e);
+      cat(custom ? "construct_4_arguments" : "construct_3_arguments");
+      break;
+  }
+  return std::unique_ptr<Checkup<T>>(p);
+}
+
+// Call forms of evaluate(const T &): lvalue, temporary, std::move'd, heap-held value freed after the call
+template<class T> static DiagnosticStatus do_evaluate(Checkup<T> & chk, const T & v, int form)
+{
+  switch (form) {
+    case 1: cat("evaluate_temporary"); return chk.evaluate(T(v));
+    case 2: {T w = v; cat("evaluate_moved"); return chk.evaluate(std::move(w));}
+    case 3: {
+        auto h = std::make_unique<T>(v);
+        DiagnosticStatus st = chk.evaluate(*h);
+        *h = T(); h.reset();
+        cat("evaluate_then_free_argument");
+        return st;
+      }
+    default: return chk.evaluate(v);
+  }
+}
+
 template<class T> static void threshold_case(vh::Ctx & c, vh::Rng & r, int kind)
 {
   Setup<T> s = gen_setup<T>(r, c);
   CaseDesc d;
   d.kind = kind; d.scalar = Tr<T>::code; d.scalar_name = Tr<T>::nm();
   d.name = r.pick(NAMES);
+  d.custom_initial = r.coin(0.3);
+  d.ctor_mode = r.coin(0.6) ? CT_LVALUES : (int)r.range(1, 3);
+  if (d.ctor_mode == CT_ALIAS_T_E) {
+    // one object for both reference parameters: target == epsilon >= 0 (t - e = 0 and t + e = 2t are exact)
+    if (s.t < 0) {s.t = (s.t == std::numeric_limits<T>::lowest()) ? std::numeric_limits<T>::max() : (T)(-s.t);}
+    if constexpr (std::is_integral<T>::value) {if ((W)s.t > IntDom<T>::ehi()) {s.t = (T)IntDom<T>::ehi();}}
+    s.e = s.t; s.exact = true;
+  }
   d.t = (LD)s.t; d.e = (LD)s.e; d.exact = s.exact;
   d.lo = d.t - d.e; d.hi = d.t + d.e;
   d.band = 0;
-  if (!s.exact) {
-    LD m = std::max(fabsl(d.t), fabsl(d.e));
-    d.band = 8 * (LD)std::numeric_limits<T>::epsilon() * m;
+  if constexpr (!std::is_integral<T>::value) {
+    if (!s.exact) {
+      LD m = std::max(fabsl(d.t), fabsl(d.e));
+      d.band = 8 * (LD)std::numeric_limits<T>::epsilon() * m;
+    }
   }
-  d.custom_initial = r.coin(0.3);
   std::string cname = std::string(KN[kind]) + "_" + Tr<T>::nm();
   c.cat(cname);
   cat(s.exact ? "regime_exact" : "regime_generic");
   if (s.e == 0) {cat("epsilon_zero");}
 
-  std::unique_ptr<Checkup<T>> chk;
   Diagnostic init = d.custom_initial ? Diagnostic(ST[r.range(0, 3)], "initial message is OK, low, high") : Diagnostic();
-  if (kind == EQ) {chk.reset(new CheckupEqualTo<T>(d.name, s.t, s.e, init));} else if (kind == GT) {
-    chk.reset(new CheckupGreaterThan<T>(d.name, s.t, s.e, init));
-  } else {chk.reset(new CheckupLowerThan<T>(d.name, s.t, s.e, init));}
+  std::unique_ptr<Checkup<T>> chk = make_checkup<T>(kind, d.ctor_mode, d.name, s.t, s.e, d.custom_initial, init);
+  const Checkup<T> & cchk = *chk;                 // getReport() through the const interface
+  std::unique_ptr<Checkup<T>> sibling;            // another check-up with the same name, created on demand
 
   uint64_t h = vh::hash_doubles({(double)kind, (double)Tr<T>::code, (double)s.t, (double)s.e});
   bool nontrivial = false, had_timeout = false, timeout_then_eval = false;
   int seen_verdicts = 0;
-  int L = (int)r.range(1, 8);
   bool have_prev = false; T prev = T();
-  for (int i = 0; i < L; ++i) {
-    if (r.coin(0.12)) {
-      have_prev = false;
-      d.steps.push_back({1, 0, 0});
-      chk->timeout();
-      DiagnosticReport rep = chk->getReport();
-      check_after_timeout(c, d, rep);
-      count("timeouts");
-      had_timeout = true;
-      h = vh::hash_addi(h, 0x71);
-      continue;
+  bool have_last = false; DiagnosticReport last_rep;
+
+  // ---- long unobserved pre-history: 2^8+k or 2^16+k evaluations (a timeout every 97th call)
+  if (r.coin(1.0 / 300)) {
+    d.pre_n = (r.coin(0.02) ? 65536 : 256) + (uint64_t)r.range(0, 3);
+    T pv[4]; int tg;
+    for (int j = 0; j < 4; ++j) {pv[j] = gen_value<T>(r, s, kind, tg); d.pre_vals[j] = (LD)pv[j];}
+    for (uint64_t j = 0; j < d.pre_n; ++j) {
+      if (j % 97 == 96) {chk->timeout();} else {chk->evaluate(pv[j & 3]);}
     }
-    int tag, fu = FU_NONE;
-    if (r.coin(0.12)) {neighbour_calls(r);}
-    T v = gen_value<T>(r, s, kind, tag);
-    if (have_prev && r.coin(0.35)) {fu = followup_value<T>(r, prev, v); tag = TAG_OTHER; nontrivial = true;}
-    followup_cat(fu);
-    prev = v; have_prev = true;
-    d.steps.push_back({0, (LD)v, tag});
-    after_neighbours_cat<T>(v);
-    DiagnosticStatus ret = chk->evaluate(v);
-    DiagnosticReport rep = chk->getReport();
-    int acc = acceptable(kind, (LD)v, d.lo, d.hi, d.band);
-    check_after_evaluate(c, d, (LD)v, acc, ret, rep, Tr<T>::print(v));
-    count("threshold_evaluations");
-    if (tag == TAG_ON) {cat("value_on_threshold");} else if (tag == TAG_ABOVE1) {cat("value_one_ulp_above");} else if (tag == TAG_BELOW1) {
-      cat("value_one_ulp_below");
-    }
-    if (tag != TAG_OTHER) {nontrivial = true;}
-    if (had_timeout) {timeout_then_eval = true;}
-    if (single(acc)) {
-      if ((seen_verdicts & (V_LOW | V_HIGH)) && (acc & (V_LOW | V_HIGH)) && !(seen_verdicts & acc)) {
-        cat("seq_error_low_and_high");
+    cat(d.pre_n >= 65536 ? "history_2pow16_plus_k" : "history_2pow8_plus_k");
+    nontrivial = true;
+    h = vh::hash_addi(h, d.pre_n);
+  }
+
+  auto other_objects = [&]() {
+      // between two observations: a sibling object of the same class and name, and/or the neighbouring
+      // printing facilities; the report of the object under test must not change
+      if (r.coin(0.5)) {
+        if (!sibling) {
+          sibling = make_checkup<T>((kind + 1 + (int)r.range(0, 1)) % 3, CT_LVALUES, d.name, s.t, s.e, false, init);
+        }
+        int tg;
+        if (r.coin(0.2)) {sibling->timeout();} else {sibling->evaluate(gen_value<T>(r, s, kind, tg));}
+        cat("interleaved_sibling_checkup");
+      } else {neighbour_calls(r);}
+      if (have_last) {
+        const DiagnosticReport & again = cchk.getReport();
+        bool same = same_report(again, last_rep);
+        if (same) {++tally().oracles["stability.report_unchanged_by_other_objects"];} else hold(c, "stability.report_unchanged_by_other_objects", same, "observation_changed",
+          [&]() {return vh::Params{{"checkup", (double)d.kind}, {"scalar", (double)d.scalar}, {"step", (double)d.steps.size()}};},
+          [&]() {return vh::J().raw("case", d.json()).raw("before", report_json(last_rep)).raw("after", report_json(again)).str();});
       }
-      seen_verdicts |= acc;
-    }
-    h = vh::hash_add(h, (double)v);
+    };
+
+  auto run_steps = [&](int from, int to) {
+      for (int i = from; i < to; ++i) {
+        if (r.coin(0.12)) {other_objects();}
+        if (r.coin(0.12)) {
+          have_prev = false;
+          d.steps.push_back({1, 0, 0});
+          chk->timeout();
+          last_rep = (i & 1) ? cchk.getReport() : chk->getReport(); have_last = true;
+          check_after_timeout(c, d, last_rep);
+          count("timeouts");
+          had_timeout = true;
+          h = vh::hash_addi(h, 0x71);
+          continue;
+        }
+        int tag, fu = FU_NONE;
+        T v = gen_value<T>(r, s, kind, tag);
+        if (have_prev && r.coin(0.35)) {fu = followup_value<T>(r, prev, v); tag = TAG_OTHER; nontrivial = true;}
+        followup_cat(fu);
+        prev = v; have_prev = true;
+        d.steps.push_back({0, (LD)v, tag});
+        after_neighbours_cat<T>(v);
+        int form = r.coin(0.7) ? 0 : (int)r.range(1, 3);
+        const DiagnosticStatus & ret = do_evaluate<T>(*chk, v, form);
+        last_rep = (i & 1) ? cchk.getReport() : chk->getReport(); have_last = true;
+        int acc = acceptable(kind, (LD)v, d.lo, d.hi, d.band);
+        check_after_evaluate(c, d, (LD)v, acc, ret, last_rep, Tr<T>::print(v));
+        count("threshold_evaluations");
+        if (tag == TAG_ON) {cat("value_on_threshold");} else if (tag == TAG_ABOVE1) {cat("value_one_ulp_above");} else if (tag == TAG_BELOW1) {
+          cat("value_one_ulp_below");
+        }
+        if (tag != TAG_OTHER) {nontrivial = true;}
+        if (had_timeout) {timeout_then_eval = true;}
+        if (single(acc)) {
+          if ((seen_verdicts & (V_LOW | V_HIGH)) && (acc & (V_LOW | V_HIGH)) && !(seen_verdicts & acc)) {
+            cat("seq_error_low_and_high");
+          }
+          seen_verdicts |= acc;
+        }
+        h = vh::hash_add(h, (double)v);
+      }
+    };
+
+  int L = (int)r.range(1, 8);
+  int hold_at = (L >= 2 && r.coin(0.3)) ? (int)r.range(1, L - 1) : L;
+  run_steps(0, hold_at);
+  if (hold_at < L) {
+    // result stability: a report obtained now is kept while the object and its sibling are used further
+    with_held(cchk.getReport(), [&](const DiagnosticReport & held) {
+        const DiagnosticReport snapshot = held;
+        run_steps(hold_at, L);
+        other_objects();
+        bool same = same_report(held, snapshot);
+        if (same) {++tally().oracles["stability.held_report_unchanged_by_later_calls"];} else hold(c, "stability.held_report_unchanged_by_later_calls", same, "result_not_stable",
+          [&]() {return vh::Params{{"checkup", (double)d.kind}, {"scalar", (double)d.scalar}, {"held_after_step", (double)hold_at}};},
+          [&]() {return vh::J().raw("case", d.json()).raw("when_obtained", report_json(snapshot)).raw("at_end", report_json(held)).str();});
+        cat("held_report_across_later_calls");
+      });
   }
   if (timeout_then_eval) {cat("seq_timeout_then_evaluate"); nontrivial = true;}
   if (L >= 2) {cat("seq_multi_step");}
@@ -623,7 +828,9 @@ static void reliability_case(vh::Ctx & c, vh::Rng & r)
   if (m < 4) {low = r.range(0, 1024) / 1024.0; high = r.range(0, 1024) / 1024.0;} else if (m < 8) {
     low = r.uni(); high = r.uni();
   } else if (m == 8) {low = high = r.uni();} else {
-    low = r.sign() * r.logu(1e-300, 1e300); high = r.sign() * r.logu(1e-300, 1e300);
+    low = r.sign() * r.logu(4.9406564584124654e-324, 1.7976931348623157e308);
+    high = r.sign() * r.logu(4.9406564584124654e-324, 1.7976931348623157e308);
+    low = clampfin<double>(low); high = clampfin<double>(high);
   }
   if (low > high) {std::swap(low, high);}
   CaseDesc d;
@@ -632,40 +839,112 @@ static void reliability_case(vh::Ctx & c, vh::Rng & r)
   cat("reliability");
   cat("regime_exact");
   if (low == high) {cat("reliability_equal_thresholds");}
-  CheckupReliability chk(d.name, low, high);
+  d.ctor_mode = r.coin(0.6) ? CT_LVALUES : (int)r.range(1, 3);
+  if (d.ctor_mode == CT_ALIAS_T_E) {high = low; d.e = d.hi = low; cat("reliability_equal_thresholds");}
+  std::unique_ptr<CheckupReliability> chkp;
+  switch (d.ctor_mode) {
+    case CT_TEMPORARIES: chkp.reset(new CheckupReliability(std::string(d.name), double(low), double(high))); cat("construct_from_temporaries"); break;
+    case CT_FREED_ARGS: {
+        auto hn = std::make_unique<std::string>(d.name); auto hl = std::make_unique<double>(low); auto hh = std::make_unique<double>(high);
+        chkp.reset(new CheckupReliability(*hn, *hl, *hh));
+        *hn = "overwritten name, long enough to leave the small-string buffer"; *hl = -1; *hh = -1;
+        cat("construct_then_free_arguments");
+        break;
+      }
+    case CT_ALIAS_T_E: chkp.reset(new CheckupReliability(d.name, low, low)); cat("construct_alias_target_epsilon"); break;
+    default: chkp.reset(new CheckupReliability(d.name, low, high)); cat("construct_3_arguments"); break;
+  }
+  CheckupReliability & chk = *chkp;
+  const CheckupReliability & cchk = chk;
+  std::unique_ptr<CheckupReliability> sibling;
   uint64_t h = vh::hash_doubles({(double)REL, 0.0, low, high});
   bool nontrivial = false;
   const double INF = std::numeric_limits<double>::infinity();
+  double prev = 0; bool have_prev = false;
+  bool have_last = false; DiagnosticReport last_rep;
+
+  auto gen = [&](int & tag) {
+      double thr = r.coin() ? low : high;
+      double v; tag = TAG_OTHER;
+      switch ((int)r.range(0, 9)) {
+        case 0: case 1: v = thr; tag = TAG_ON; break;
+        case 2: case 3: v = std::nextafter(thr, INF); tag = TAG_ABOVE1; break;
+        case 4: case 5: v = std::nextafter(thr, -INF); tag = TAG_BELOW1; break;
+        case 6: v = 0.5 * (low + high); break;
+        case 7: v = r.coin() ? 0.0 : 1.0; break;
+        case 8: v = r.uni(); break;
+        default: v = r.sign() * r.logu(4.9406564584124654e-324, 1.7976931348623157e308); break;
+      }
+      return clampfin<double>(v);
+    };
+
+  if (r.coin(1.0 / 300)) {
+    d.pre_n = (r.coin(0.02) ? 65536 : 256) + (uint64_t)r.range(0, 3);
+    double pv[4]; int tg;
+    for (int j = 0; j < 4; ++j) {pv[j] = gen(tg); d.pre_vals[j] = pv[j];}
+    for (uint64_t j = 0; j < d.pre_n; ++j) {chk.evaluate(pv[j & 3]);}
+    cat(d.pre_n >= 65536 ? "history_2pow16_plus_k" : "history_2pow8_plus_k");
+    nontrivial = true;
+    h = vh::hash_addi(h, d.pre_n);
+  }
+
+  auto other_objects = [&]() {
+      if (r.coin(0.5)) {
+        if (!sibling) {sibling.reset(new CheckupReliability(d.name, 0.5 * low, high));}
+        int tg; sibling->evaluate(gen(tg));
+        cat("interleaved_sibling_checkup");
+      } else {neighbour_calls(r);}
+      if (have_last) {
+        const DiagnosticReport & again = cchk.getReport();
+        bool same = same_report(again, last_rep);
+        if (same) {++tally().oracles["stability.report_unchanged_by_other_objects"];} else hold(c, "stability.report_unchanged_by_other_objects", same, "observation_changed",
+          [&]() {return vh::Params{{"checkup", (double)d.kind}, {"scalar", (double)d.scalar}, {"step", (double)d.steps.size()}};},
+          [&]() {return vh::J().raw("case", d.json()).raw("before", report_json(last_rep)).raw("after", report_json(again)).str();});
+      }
+    };
+
+  auto run_steps = [&](int from, int to) {
+      for (int i = from; i < to; ++i) {
+        if (r.coin(0.12)) {other_objects();}
+        int tag;
+        double v = gen(tag);
+        if (have_prev && r.coin(0.35)) {followup_cat(followup_value<double>(r, prev, v)); tag = TAG_OTHER; nontrivial = true;}
+        prev = v; have_prev = true;
+        d.steps.push_back({0, (LD)v, tag});
+        after_neighbours_cat<double>(v);
+        DiagnosticStatus st;
+        switch (r.coin(0.7) ? 0 : (int)r.range(1, 2)) {
+          case 1: st = chk.evaluate(double(v)); cat("evaluate_temporary"); break;
+          case 2: {auto hv = std::make_unique<double>(v); st = chk.evaluate(*hv); *hv = -7; hv.reset(); cat("evaluate_then_free_argument"); break;}
+          default: st = chk.evaluate(v); break;
+        }
+        const DiagnosticStatus & ret = st;
+        last_rep = (i & 1) ? cchk.getReport() : chk.getReport(); have_last = true;
+        int acc = v < low ? V_LOW : (v < high ? V_UNCERTAIN : V_OK);
+        check_after_evaluate(c, d, (LD)v, acc, ret, last_rep, Tr<double>::print(v));
+        count("threshold_evaluations");
+        if (tag == TAG_ON) {cat("value_on_threshold");} else if (tag == TAG_ABOVE1) {cat("value_one_ulp_above");} else if (tag == TAG_BELOW1) {
+          cat("value_one_ulp_below");
+        }
+        if (tag != TAG_OTHER) {nontrivial = true;}
+        h = vh::hash_add(h, v);
+      }
+    };
+
   int L = (int)r.range(1, 8);
-  double prev = 0;
-  for (int i = 0; i < L; ++i) {
-    double thr = r.coin() ? low : high;
-    double v; int tag = TAG_OTHER;
-    switch ((int)r.range(0, 9)) {
-      case 0: case 1: v = thr; tag = TAG_ON; break;
-      case 2: case 3: v = std::nextafter(thr, INF); tag = TAG_ABOVE1; break;
-      case 4: case 5: v = std::nextafter(thr, -INF); tag = TAG_BELOW1; break;
-      case 6: v = 0.5 * (low + high); break;
-      case 7: v = r.coin() ? 0.0 : 1.0; break;
-      case 8: v = r.uni(); break;
-      default: v = r.sign() * r.logu(1e-300, 1e300); break;
-    }
-    v = clampfin<double>(v);
-    if (i > 0 && r.coin(0.35)) {followup_cat(followup_value<double>(r, prev, v)); tag = TAG_OTHER; nontrivial = true;}
-    prev = v;
-    d.steps.push_back({0, (LD)v, tag});
-    if (r.coin(0.12)) {neighbour_calls(r);}
-    after_neighbours_cat<double>(v);
-    DiagnosticStatus ret = chk.evaluate(v);
-    DiagnosticReport rep = chk.getReport();
-    int acc = v < low ? V_LOW : (v < high ? V_UNCERTAIN : V_OK);
-    check_after_evaluate(c, d, (LD)v, acc, ret, rep, Tr<double>::print(v));
-    count("threshold_evaluations");
-    if (tag == TAG_ON) {cat("value_on_threshold");} else if (tag == TAG_ABOVE1) {cat("value_one_ulp_above");} else if (tag == TAG_BELOW1) {
-      cat("value_one_ulp_below");
-    }
-    if (tag != TAG_OTHER) {nontrivial = true;}
-    h = vh::hash_add(h, v);
+  int hold_at = (L >= 2 && r.coin(0.3)) ? (int)r.range(1, L - 1) : L;
+  run_steps(0, hold_at);
+  if (hold_at < L) {
+    with_held(cchk.getReport(), [&](const DiagnosticReport & held) {
+        const DiagnosticReport snapshot = held;
+        run_steps(hold_at, L);
+        other_objects();
+        bool same = same_report(held, snapshot);
+        if (same) {++tally().oracles["stability.held_report_unchanged_by_later_calls"];} else hold(c, "stability.held_report_unchanged_by_later_calls", same, "result_not_stable",
+          [&]() {return vh::Params{{"checkup", (double)d.kind}, {"scalar", (double)d.scalar}, {"held_after_step", (double)hold_at}};},
+          [&]() {return vh::J().raw("case", d.json()).raw("when_obtained", report_json(snapshot)).raw("at_end", report_json(held)).str();});
+        cat("held_report_across_later_calls");
+      });
   }
   if (L >= 2) {cat("seq_multi_step");}
   c.distinct(h, nontrivial);
@@ -699,6 +978,10 @@ static void check_pair_triple(vh::Ctx & c, int a, int b, int k, const char * tag
   DiagnosticStatus l = worse(ab, C), rr = worse(A, worse(B, C));
   c.expect("worse.associative", l == rr, "worse_law", params, wit);
   c.expect(tagt, rank_of(l) == std::max(rank_of(A), std::max(rank_of(B), rank_of(C))), "worse_not_max", params, wit);
+  // temporaries for both reference parameters, and one object for both
+  DiagnosticStatus same = A;
+  c.expect("value_categories.status_functions", worse(DiagnosticStatus(A), DiagnosticStatus(B)) == ab && worse(same, same) == A,
+    "worse_law", params, wit);
 }
 
 static void check_list(vh::Ctx & c, const std::vector<int> & v, const char * o1, const char * o2)
@@ -718,6 +1001,14 @@ static void check_list(vh::Ctx & c, const std::vector<int> & v, const char * o1,
     };
   c.expect(o1, rank_of(w) == mx, "worst_of_list", params, wit);
   c.expect(o2, ao == all, "all_ok", params, wit);
+  // the same list as a temporary and as a std::move'd object; the lvalue list must be left as it was
+  std::list<Diagnostic> l2 = l, l3 = l;
+  DiagnosticStatus wt = romea::core::worseStatus(std::list<Diagnostic>(l)), wm = romea::core::worseStatus(std::move(l2));
+  bool at = romea::core::allOK(std::list<Diagnostic>(l)), am = romea::core::allOK(std::move(l3));
+  bool untouched = l.size() == v.size();
+  size_t i = 0;
+  for (auto & dg : l) {untouched = untouched && dg.status == ST[v[i]] && dg.message == "m" + std::to_string(i); ++i;}
+  c.expect("value_categories.status_functions", wt == w && wm == w && at == ao && am == ao && untouched, "worst_of_list", params, wit);
 }
 
 static void exhaustive_algebra(vh::Ctx & c)
@@ -779,8 +1070,12 @@ static void append_case(vh::Ctx & c, vh::Rng & r)
   static const std::vector<std::string> KEYS = {"a", "b", "c", "rate", "", "x.y", "z z", "k7", "k8", "k9", "k10", "k11"};
   int nrep = (int)r.range(1, 4);
   bool small_pool = r.coin(0.6);
-  DiagnosticReport acc;
+  std::vector<std::unique_ptr<DiagnosticReport>> pool;
+  pool.emplace_back(new DiagnosticReport());
+  DiagnosticReport * accp = pool.back().get();
+  DiagnosticReport * kept_source = nullptr; DiagnosticReport kept_snapshot;   // source of a copy, must stay as it was
   {
+    DiagnosticReport & acc = *accp;
     // left operand to start with, in one of the four states {no diagnostics, diagnostics} x {no info, info}
     int state = (int)r.range(0, 3);
     int nd = (state & 1) ? (int)r.range(1, 5) : 0;
@@ -791,13 +1086,81 @@ static void append_case(vh::Ctx & c, vh::Rng & r)
   }
   // model
   std::vector<std::pair<int, std::string>> mdiag;
-  for (auto & dgn : acc.diagnostics) {mdiag.emplace_back(rank_of(dgn.status), dgn.message);}
+  for (auto & dgn : accp->diagnostics) {mdiag.emplace_back(rank_of(dgn.status), dgn.message);}
   std::map<std::string, std::set<std::string>> minfo;     // key -> acceptable values
-  for (auto & kv : acc.info) {minfo[kv.first].insert(kv.second);}
+  for (auto & kv : accp->info) {minfo[kv.first].insert(kv.second);}
   uint64_t h = 0x22;
   bool dup_seen = false; size_t total = mdiag.size();
   std::string desc = "[";
+
+  auto matches_model = [&](const DiagnosticReport & rep, bool & dok, bool & iok) {
+      dok = rep.diagnostics.size() == mdiag.size();
+      if (dok) {
+        size_t i = 0;
+        for (auto & dgn : rep.diagnostics) {
+          if (rank_of(dgn.status) != mdiag[i].first || dgn.message != mdiag[i].second) {dok = false; break;}
+          ++i;
+        }
+      }
+      iok = rep.info.size() == minfo.size();
+      if (iok) {
+        for (auto & kv : rep.info) {
+          auto it = minfo.find(kv.first);
+          if (it == minfo.end() || !it->second.count(kv.second)) {iok = false; break;}
+        }
+      }
+    };
+
+  // ---- long history: one cheap append (no diagnostics, one info key) repeated 2^8+k / 2^16+k times
+  if (r.coin(1.0 / 100)) {
+    uint64_t n = (r.coin(0.05) ? 65536 : 256) + (uint64_t)r.range(0, 3);
+    DiagnosticReport tiny; const std::string key = KEYS[r.range(0, small_pool ? 4 : 11)];
+    tiny.info[key] = "tiny";
+    for (uint64_t j = 0; j < n; ++j) {*accp += tiny;}
+    minfo[key].insert("tiny");
+    bool dok, iok; matches_model(*accp, dok, iok);
+    c.expect("append.after_long_history", dok && iok, "append_info",
+      [&]() {return vh::Params{{"repeats", (double)n}};},
+      [&]() {return vh::J().f("repeats", n).s("key", key).raw("got", report_json(*accp)).str();});
+    for (auto & kv : accp->info) {minfo[kv.first] = {kv.second};}
+    c.cat(n >= 65536 ? "append_history_2pow16_plus_k" : "append_history_2pow8_plus_k");
+    h = vh::hash_addi(h, n);
+    desc += vh::J().f("repeated_tiny_appends", n).str() + ",";
+  }
+
   for (int k = 0; k < nrep; ++k) {
+    // ---- value semantics of the accumulated report: continue with a copy / moved-to object, the source
+    // is overwritten and destroyed (or kept and re-checked at the end)
+    if (r.coin(0.3)) {
+      int mode = (int)r.range(0, 5);
+      static const char * VS[] = {"append_copy_constructed", "append_copy_assigned", "append_move_constructed",
+        "append_move_assigned", "append_self_assigned", "append_copy_source_kept"};
+      DiagnosticReport junk;
+      junk.diagnostics.emplace_back(DiagnosticStatus::WARN, "junk"); junk.info["junk"] = "junk"; junk.info["a"] = "junk";
+      DiagnosticReport * src = accp, * dst = nullptr;
+      switch (mode) {
+        case 0: pool.emplace_back(new DiagnosticReport(*src)); dst = pool.back().get(); break;
+        case 1: pool.emplace_back(new DiagnosticReport(junk)); dst = pool.back().get(); *dst = *src; break;
+        case 2: pool.emplace_back(new DiagnosticReport(std::move(*src))); dst = pool.back().get(); break;
+        case 3: pool.emplace_back(new DiagnosticReport(junk)); dst = pool.back().get(); *dst = std::move(*src); break;
+        case 4: {DiagnosticReport & alias = *src; *src = alias; dst = src; break;}
+        default: pool.emplace_back(new DiagnosticReport(*src)); dst = pool.back().get(); break;
+      }
+      if (mode == 5) {
+        if (!kept_source) {kept_source = src; kept_snapshot = *src;}
+      } else if (dst != src && src != kept_source) {
+        *src = junk;                                     // overwrite, then destroy the source
+        for (auto & up : pool) {if (up.get() == src) {up.reset();}}
+      }
+      accp = dst;
+      bool dok, iok; matches_model(*accp, dok, iok);
+      c.expect("value_semantics.report_copy_behaves_as_original", dok && iok, "report_copy_semantics",
+        [&]() {return vh::Params{{"operand", (double)k}, {"mode", (double)mode}, {"n_diagnostics", (double)mdiag.size()}};},
+        [&]() {return vh::J().f("mode", mode).raw("got", report_json(*accp)).str();});
+      c.cat(VS[mode]);
+      h = vh::hash_addi(h, 0x100 + mode);
+    }
+    DiagnosticReport & acc = *accp;
     DiagnosticReport rk;
     int nd = r.coin(0.15) ? 20 : (r.coin(0.15) ? 0 : (int)r.range(1, 20));
     if (total + nd > 20 && r.coin(0.7)) {nd = (int)r.range(0, 3);}
@@ -812,7 +1175,12 @@ static void append_case(vh::Ctx & c, vh::Rng & r)
     total += nd;
     // value category of the right-hand side: lvalue, const lvalue, temporary returned by a function,
     // std::move'd object, or the report returned by a real check-up's getReport()
-    int rhs = (int)r.range(0, 4);
+    int rhs = r.coin(0.06) ? 5 : (int)r.range(0, 4);
+    if (rhs == 5) {
+      // the same object for both reference parameters: expected from the values at call time
+      // (diagnostics doubled in order, info unchanged)
+      rk = acc; nd = (int)rk.diagnostics.size(); total += nd - nd0;
+    }
     std::unique_ptr<CheckupGreaterThan<double>> chk;
     if (rhs == 4) {
       chk.reset(new CheckupGreaterThan<double>(KEYS[r.range(0, small_pool ? 4 : 11)], r.uni(-1.0, 1.0), 0.125));
@@ -826,13 +1194,14 @@ static void append_case(vh::Ctx & c, vh::Rng & r)
     c.cat(LEFT[lstate]);
     bool overlap = false;
     for (auto & kv : rk_before.info) {if (acc.info.count(kv.first)) {overlap = true;}}
-    if (rhs >= 2 && lstate == 2) {c.cat("append_rvalue_onto_info_only_left"); if (overlap) {c.cat("append_rvalue_onto_info_only_left_shared_keys");}}
+    if (rhs >= 2 && rhs <= 4 && lstate == 2) {c.cat("append_rvalue_onto_info_only_left"); if (overlap) {c.cat("append_rvalue_onto_info_only_left_shared_keys");}}
     DiagnosticReport * retp;
     switch (rhs) {
       case 0: retp = &(acc += rk); c.cat("append_rhs_lvalue"); break;
       case 1: retp = &(acc += rk_before); c.cat("append_rhs_const_lvalue"); break;
       case 2: retp = &(acc += copy_of(rk_before)); c.cat("append_rhs_temporary"); break;
       case 3: retp = &(acc += std::move(rk)); c.cat("append_rhs_moved"); break;
+      case 5: retp = &(acc += acc); c.cat("append_rhs_is_left_operand"); break;
       default: retp = &(acc += chk->getReport()); c.cat("append_rhs_checkup_report"); break;
     }
     DiagnosticReport & ret = *retp;
@@ -863,23 +1232,10 @@ static void append_case(vh::Ctx & c, vh::Rng & r)
                .raw("got_info", inf).str();
       };
     c.expect("append.returns_left_operand", &ret == &acc, "append_diagnostics", params, wit);
-    bool dok = acc.diagnostics.size() == mdiag.size();
-    if (dok) {
-      size_t i = 0;
-      for (auto & dgn : acc.diagnostics) {
-        if (rank_of(dgn.status) != mdiag[i].first || dgn.message != mdiag[i].second) {dok = false; break;}
-        ++i;
-      }
-    }
-    c.expect("append.diagnostics_concatenated_in_order", dok, "append_diagnostics", params, wit);
-    bool iok = acc.info.size() == minfo.size();
-    if (iok) {
-      for (auto & kv : acc.info) {
-        auto it = minfo.find(kv.first);
-        if (it == minfo.end() || !it->second.count(kv.second)) {iok = false; break;}
-      }
-    }
-    c.expect("append.info_merged", iok, "append_info", params, wit);
+    bool dok, iok; matches_model(acc, dok, iok);
+    c.expect(rhs == 5 ? "append.self_alias" : "append.diagnostics_concatenated_in_order", dok,
+      rhs == 5 ? "append_self_alias" : "append_diagnostics", params, wit);
+    c.expect("append.info_merged", iok, rhs == 5 ? "append_self_alias" : "append_info", params, wit);
     // after the step, the accepted value of each key is the one now stored (values are preserved
     // by later appends of other keys)
     if (iok) {for (auto & kv : acc.info) {minfo[kv.first] = {kv.second};}}
@@ -890,6 +1246,12 @@ static void append_case(vh::Ctx & c, vh::Rng & r)
     }
   }
   desc += "]";
+  DiagnosticReport & acc = *accp;
+  if (kept_source) {
+    c.expect("value_semantics.copy_source_unaffected", same_report(*kept_source, kept_snapshot), "report_copy_semantics",
+      [&]() {return vh::Params{{"n_diagnostics", (double)kept_snapshot.diagnostics.size()}};},
+      [&]() {return vh::J().raw("source_now", report_json(*kept_source)).raw("source_when_copied", report_json(kept_snapshot)).str();});
+  }
   if (!acc.diagnostics.empty()) {
     int mx = 0; bool all = true;
     for (auto & m : mdiag) {mx = std::max(mx, m.first); all = all && m.first == 0;}
@@ -913,10 +1275,12 @@ static void one_case(vh::Ctx & c, uint64_t idx)
   int fam = (int)r.range(0, 99);
   if (fam < 66) {
     int kind = (int)r.range(0, 2);
-    int sc = (int)r.range(0, 9);
-    if (sc < 5) {threshold_case<double>(c, r, kind);} else if (sc < 8) {threshold_case<float>(c, r, kind);} else {
+    int sc = (int)r.range(0, 19);
+    if (sc < 8) {threshold_case<double>(c, r, kind);} else if (sc < 12) {threshold_case<float>(c, r, kind);} else if (sc < 14) {
       threshold_case<int>(c, r, kind);
-    }
+    } else if (sc < 16) {threshold_case<long double>(c, r, kind);} else if (sc < 17) {threshold_case<short>(c, r, kind);} else if (sc < 19) {
+      threshold_case<long long>(c, r, kind);
+    } else {threshold_case<unsigned>(c, r, kind);}
   } else if (fam < 80) {reliability_case(c, r);} else if (fam < 90) {list_case(c, r);} else {append_case(c, r);}
 }
 
